@@ -123,6 +123,7 @@ pub fn max_depth(src: Source) -> usize {
         Source::VecOwned | Source::Iter { .. } | Source::Endless { .. } => 3,
         Source::VecRef | Source::SliceRef { .. } | Source::SliceIntoPar | Source::Range { .. } => 2,
         Source::ArrayRef | Source::RangeIter { .. } | Source::ClonedSlice | Source::ParCloned => 1,
+        Source::NestedCloned | Source::NestedCopied { .. } => 1,
         Source::Coll { .. } => 1,
     }
 }
@@ -180,9 +181,11 @@ fn arm_faults(case: &Case, m: Option<&model::Model>) -> Vec<ArmedFault> {
                         nth: None,
                         uid: Some(uid),
                     },
+                    // reduce operator / key / compare: the i-th call, modulo the number of calls a reduction of the
+                    // model's output needs at least
                     None => ArmedFault {
                         site: f.site,
-                        nth: Some(i),
+                        nth: Some(i % (m.map(|m| m.out.len()).unwrap_or(1).max(2) as u32 - 1)),
                         uid: None,
                     },
                 }
@@ -230,6 +233,30 @@ fn dispatch(case: &Case, rc: &Rc, src: &[V]) -> Out {
         Source::ParCloned => {
             let data = mk();
             start::<D1, _>(data.par().cloned(), rc)
+        }
+        Source::NestedCloned => {
+            let mut flat = mk().into_iter();
+            let nested: Vec<Vec<E>> = model::nested_group_sizes(src.len()).into_iter().map(|g| flat.by_ref().take(g).collect()).collect();
+            let p = nested
+                .par()
+                .flat_map(|v: &Vec<E>| {
+                    obs::src_flat_call(v.len() as u64);
+                    v.iter()
+                })
+                .cloned();
+            start::<D1, _>(p, rc)
+        }
+        Source::NestedCopied { .. } => {
+            let mut flat = src.iter().map(|v| v.uid as usize);
+            let nested: Vec<Vec<usize>> = model::nested_group_sizes(src.len()).into_iter().map(|g| flat.by_ref().take(g).collect()).collect();
+            let p = nested
+                .par()
+                .flat_map(|v: &Vec<usize>| {
+                    obs::src_flat_call(v.len() as u64);
+                    v.iter()
+                })
+                .copied();
+            start::<D1, _>(p, rc)
         }
         Source::Iter { hint } => start::<D3, _>(SrcIter::finite(src, hint).par(), rc),
         Source::Endless { budget } => start::<D3, _>(SrcIter::endless(src, budget as usize).par(), rc),
